@@ -366,6 +366,7 @@ def run(tier, replay=None):
     results = [_worker(j) for j in jobs]
   by_class = collections.Counter()
   found = 0
+  per_key = {}
   weak_msgs = collections.Counter()
   for c, (st, msg) in zip(used, results):
     by_class['%s:%s' % (c['cname'], st)] += 1
@@ -383,6 +384,9 @@ def run(tier, replay=None):
       found += 1
       key = '%s:%s' % (c['cname'] + ('/' + c['sub'] if c.get('sub') else ''),
                        'accepted' if st == 'ok' else (st if st not in DIAG else 'offender-not-named'))
+      per_key[key] = per_key.get(key, 0) + 1
+      if per_key[key] > 3 or found > 12:       # a few replays per class are enough
+        continue
       rep.violation(key, {'gen_seed': c['seed'], 'corruption': c['cname'], 'predicate': c['pred'],
                           'offender': c.get('offender'), 'only': c.get('only'), 'problem': problem,
                           'program_text': c['text'], 'observed': [st, msg],
